@@ -242,6 +242,11 @@ func (p *ProjectionParser) makeProjection(s *Projection, q string, proj parse.Fi
 					// Create a new field for this new key.
 					field = s.addField(group, cfg.Key)
 					initField(field)
+					if field.order != nil && len(s.keys) > 0 {
+						// The Keys interned so far have no value
+						// for this field, so "" was observed first.
+						field.order[""] = 0
+					}
 					seen[cfg.Key] = field
 				}
 
